@@ -11,3 +11,18 @@ package schemahelper
 //@   ghost nestedFound after (schemahelper.blockSchema).DependentBodySchema#1 : nestedOk == LookupSuccessful
 //@   ensures [C16] implies(nestedFound, result == LookupSuccessful && keys == nestedKeys && body == nestedBody)
 //@   ensures [C16] implies(result == NoDependentKeys, body == bs.Body)
+
+// ---- C07/C12/C16: the effective body schema. Whenever the dependent lookup finds a body (completely or
+// ---- for the label part only), every attribute and block type of that body is part of the merged schema,
+// ---- the attributes as declared there; the lookup result is handed on unchanged.
+//@ contract schemahelper.MergeBlockBodySchemas (block, blockSchema) (merged, lookup)
+//@   requires blockSchema != nil
+//@   ghost depBody after (schemahelper.blockSchema).DependentBodySchema#1 : depSchema
+//@   ghost depRes after (schemahelper.blockSchema).DependentBodySchema#1 : result
+//@   loop 1 invariant [C07,C12,C16] forallkey(k, depSchema.Attributes, implies(visited(k), haskey(mergedSchema.Attributes, k) && mergedSchema.Attributes[k] == depSchema.Attributes[k]))
+//@   loop 2 invariant [C07,C12,C16] forallkey(k, depSchema.Attributes, haskey(mergedSchema.Attributes, k) && mergedSchema.Attributes[k] == depSchema.Attributes[k])
+//@   loop 2 invariant [C07,C12,C16] forallkey(k, depSchema.Blocks, implies(visited(k), haskey(mergedSchema.Blocks, k)))
+//@   ensures [C07,C12,C16] merged != nil && fresh(merged)
+//@   ensures [C07,C12,C16] lookup == depRes
+//@   ensures [C07,C12,C16] implies(depRes == LookupSuccessful || depRes == LookupPartiallySuccessful, forallkey(k, depBody.Attributes, haskey(merged.Attributes, k) && merged.Attributes[k] == depBody.Attributes[k]))
+//@   ensures [C07,C12,C16] implies(depRes == LookupSuccessful || depRes == LookupPartiallySuccessful, forallkey(k, depBody.Blocks, haskey(merged.Blocks, k)))
